@@ -198,15 +198,16 @@ RevOn(X, A, rs) ==
   SelectSeq(rs, LAMBDA r : TypeX(X, r.src) = "bool" /\ A.core[r.src].val = "y" /\ EvalE(X, A, r.e.c) = 2)
 
 \* Defaults injected by a load under policy `sdkconfig` (KStore.LoadP): the option's defaults are
-\* replaced by the stored value, conditional on all of its `depends on` (A.inj.s / A.inj.c).
-RECURSIVE AndAll(_)
-AndAll(es) == IF es = <<>> THEN YES ELSE And(Head(es), AndAll(Tail(es)))
+\* replaced by the stored value, which holds wherever the option is defined at all: under the
+\* dependencies of any one of its definitions (A.inj.s / A.inj.c).
+RECURSIVE OrAll(_)
+OrAll(es) == IF es = <<>> THEN <<"n">> ELSE IF Len(es) = 1 THEN Head(es) ELSE <<"||", Head(es), OrAll(Tail(es))>>
 InjAtom(type, v) == IF type = "bool" THEN <<v>> ELSE <<"c", v>>
 DefaultsOf(X, A, n) ==
-  IF A.inj.s[n] # NoVal THEN <<[v |-> InjAtom(X.s[n].type, A.inj.s[n]), c |-> AndAll(X.s[n].deps)]>>
+  IF A.inj.s[n] # NoVal THEN <<[v |-> InjAtom(X.s[n].type, A.inj.s[n]), c |-> OrAll(X.s[n].deps)]>>
   ELSE X.s[n].defaults
 ChDefaultsOf(X, A, c) ==
-  IF A.inj.c[c] # NoVal THEN <<[m |-> A.inj.c[c], c |-> AndAll(X.c[c].deps)]>> ELSE X.c[c].defaults
+  IF A.inj.c[c] # NoVal THEN <<[m |-> A.inj.c[c], c |-> OrAll(X.c[c].deps)]>> ELSE X.c[c].defaults
 
 \* choice: the user's pick if visible, else the first default whose condition holds and whose
 \* member is visible, else the first visible member, else nothing
@@ -215,8 +216,10 @@ SelOf(X, A, P, c) ==   \* A.mode[c] is already known
   IF A.mode[c] # 2 THEN NoVal
   ELSE IF P[c] # NoVal /\ MemberVis(X, A, P[c]) = 2 THEN P[c]
   ELSE LET ds == ChDefaultsOf(X, A, c)
-           ok == {i \in 1..Len(ds) : EvalE(X, A, ds[i].c) = 2 /\ MemberVis(X, A, ds[i].m) = 2}
            ms == X.c[c].members
+           \* (a default naming something that is not a member of the choice selects nothing)
+           ok == {i \in 1..Len(ds) : (\E j \in 1..Len(ms) : ms[j] = ds[i].m)
+                                      /\ EvalE(X, A, ds[i].c) = 2 /\ MemberVis(X, A, ds[i].m) = 2}
            vm == {i \in 1..Len(ms) : MemberVis(X, A, ms[i]) = 2}
        IN IF ok # {} THEN ds[CHOOSE i \in ok : \A j \in ok : i <= j].m
           ELSE IF vm # {} THEN ms[CHOOSE i \in vm : \A j \in vm : i <= j]
